@@ -92,11 +92,17 @@ func scanDecode(out string) (string, error) {
 				if err != nil {
 					return "", fmt.Errorf("bad reference &%s;", ref)
 				}
+				if !strings.ContainsRune("<>&\"'", rune(n)) {
+					return "", fmt.Errorf("reference &%s; at byte %d replaces %q, which is not one of < > & \" ' (other bytes must pass through unchanged)", ref, i, rune(n))
+				}
 				b.WriteRune(rune(n))
 			case strings.HasPrefix(ref, "#"):
 				n, err := strconv.ParseUint(ref[1:], 10, 32)
 				if err != nil {
 					return "", fmt.Errorf("bad reference &%s;", ref)
+				}
+				if !strings.ContainsRune("<>&\"'", rune(n)) {
+					return "", fmt.Errorf("reference &%s; at byte %d replaces %q, which is not one of < > & \" ' (other bytes must pass through unchanged)", ref, i, rune(n))
 				}
 				b.WriteRune(rune(n))
 			default:
